@@ -9,12 +9,76 @@ import (
 	"bytes"
 	"fmt"
 	"go/ast"
+	"go/parser"
 	"go/printer"
 	"go/token"
+	"path/filepath"
 	"sort"
 	"strconv"
 	"strings"
 )
+
+// c06ScanShape extracts, from unistring.Scan (unistring/string.go), the comparison that decides in the COUNTING pass
+// whether a rune takes two UTF-16 units (`if chr > 0xFFFF { utf16Size++ }`) and the one that decides in the FILL pass
+// whether it is stored as one unit (`if chr <= 0xFFFF { buf[c] = uint16(chr) } else { EncodeRune }`), each as
+// (operator, constant).  Any other shape is an error.
+func c06ScanShape(dir string) (countOp string, countC int, fillOp string, fillC int, err error) {
+	fset := token.NewFileSet()
+	f, e := parser.ParseFile(fset, filepath.Join(dir, "unistring", "string.go"), nil, 0)
+	if e != nil {
+		return "", 0, "", 0, e
+	}
+	var scan *ast.FuncDecl
+	for _, d := range f.Decls {
+		if fd, ok := d.(*ast.FuncDecl); ok && fd.Recv == nil && fd.Name.Name == "Scan" {
+			scan = fd
+		}
+	}
+	if scan == nil {
+		return "", 0, "", 0, fmt.Errorf("unistring.Scan not found")
+	}
+	type cmp struct {
+		op   string
+		c    int
+		kind string
+	}
+	var found []cmp
+	ast.Inspect(scan, func(n ast.Node) bool {
+		rs, ok := n.(*ast.RangeStmt)
+		if !ok {
+			return true
+		}
+		for _, st := range rs.Body.List {
+			ifs, ok := st.(*ast.IfStmt)
+			if !ok {
+				continue
+			}
+			be, ok := ifs.Cond.(*ast.BinaryExpr)
+			if !ok {
+				continue
+			}
+			x, ok1 := be.X.(*ast.Ident)
+			y, ok2 := be.Y.(*ast.BasicLit)
+			if !ok1 || !ok2 || x.Name != "chr" {
+				continue
+			}
+			v, e := strconv.ParseInt(y.Value, 0, 64)
+			if e != nil {
+				continue
+			}
+			kind := "count"
+			if ifs.Else != nil {
+				kind = "fill"
+			}
+			found = append(found, cmp{be.Op.String(), int(v), kind})
+		}
+		return true
+	})
+	if len(found) != 2 || found[0].kind != "count" || found[1].kind != "fill" {
+		return "", 0, "", 0, fmt.Errorf("unistring.Scan: expected a counting range loop with `if chr OP C {…}` followed by a fill range loop with `if chr OP C {…} else {…}`, found %v", found)
+	}
+	return found[0].op, found[0].c, found[1].op, found[1].c, nil
+}
 
 func init() { Register("C06", genC06) }
 
@@ -135,6 +199,10 @@ func genC06(p *Pkg) (map[string]string, error) {
 	if threshold < 0 {
 		return nil, fmt.Errorf("Runtime.toValue: `case string: if len(i) <= N` not found")
 	}
+	cOp, cC, fOp, fC, err := c06ScanShape(p.Dir)
+	if err != nil {
+		return nil, err
+	}
 	if len(uni) == 0 || len(asc) == 0 {
 		return nil, fmt.Errorf("no conversion sites found (package not parsed?)")
 	}
@@ -161,6 +229,9 @@ func genC06(p *Pkg) (map[string]string, error) {
 	fmt.Fprintf(&b, "def asciiLiteralCount : Nat := %d\n\n", litCount)
 	fmt.Fprintf(&b, "def asciiLiteralsAllAscii : Bool := %v\n\n", litAllASCII)
 	fmt.Fprintf(&b, "def toValueEagerMax : Nat := %d\n\n", threshold)
+	fmt.Fprintf(&b, "/-- unistring.Scan: (operator, constant) of the two-unit test in the counting pass and of the one-unit test in the fill pass -/\n")
+	fmt.Fprintf(&b, "def scanCountTest : String × Nat := (%s, %d)\n\n", LeanString(cOp), cC)
+	fmt.Fprintf(&b, "def scanFillTest : String × Nat := (%s, %d)\n\n", LeanString(fOp), fC)
 	b.WriteString("end GojaModel.Generated.C06\n")
 	return map[string]string{"C06_Sites.lean": b.String()}, nil
 }
